@@ -206,6 +206,35 @@ def run_job(spec):
         for r in explore(body, max_paths=H.max_paths):
             res["paths"] += 1
             if r.abort is not None:
+                # the model cannot follow this path.  One concrete member of it is still run on the real code: if that run breaks
+                # the property (independent oracle) it is a reproduced violation; otherwise the path stays inconclusive.
+                viol = None
+                if r.pc and type(r.abort).__name__ == "UnsupportedSymbolicOp":
+                    try:
+                        sa = z3.Solver(); sa.set("timeout", 20000); sa.add(*r.pc)
+                        members = []
+                        if sa.check() == z3.sat:
+                            members.append(V.concrete(sa.model()))
+                            # a second member: every integer input pushed as far up as the path allows (greedy)
+                            ints = [nm for nm in V.names if V.kinds[nm] == "int" and V.vars[nm].hi is not None][:64]
+                            for nm in ints:
+                                sa.push(); sa.add(V.vars[nm].t == V.vars[nm].hi)
+                                if sa.check() != z3.sat:
+                                    sa.pop()
+                            if sa.check() == z3.sat:
+                                members.append(V.concrete(sa.model()))
+                        for cxa in members:
+                            real_a = plain_call(spec["module"], spec["harness"], skel, cxa)
+                            why = H.oracle(skel, cxa, real_a)
+                            if why is not None and not any(region_eval(k["region"], cxa, skel) is True for k in known_all):
+                                viol = dict(obligation="aborted-path-replay", inputs=cxa, output=jsonable(real_a),
+                                            why=(f"[real run of a member of a path the model could not follow ({r.abort})] " + why)[:1000])
+                                break
+                    except Exception:
+                        viol = None
+                if viol is not None:
+                    res["violations"].append(viol)
+                    break
                 res["inconclusive"].append(f"{type(r.abort).__name__}: {r.abort}"[:300])
                 if len(res["inconclusive"]) > 3:
                     break
